@@ -43,7 +43,7 @@ ASSUMPTIONS = [
     "how long a call that has to wait is delayed is unspecified beyond the window bound and quiescence",
     "arrival order of same-instant callers is the order in which the harness entered the wrapper",
 ]
-MINIMUMS = {"monitor:window": 3000, "bursts_over_limit": 1000, "calls_that_waited": 1000, "monitor:no-needless-delay": 3000, "histories_over_two_event_loops": 300, "histories_with_a_call_time_facade": 100, "histories_with_synchronous_work": 300}
+MINIMUMS = {"monitor:window": 3000, "bursts_over_limit": 1000, "calls_that_waited": 1000, "monitor:no-needless-delay": 3000, "histories_over_two_event_loops": 300, "histories_with_a_call_time_facade": 100, "histories_with_synchronous_work": 300, "histories_with_arrivals_just_off_a_window_boundary": 1000}
 JOBS = {"quick": 4, "thorough": 16}
 LEVEL_TEXT = (
     "Every arrival pattern of up to 5 calls with gaps from {0, 1/4, 1/2, 1, 5/4, 2} periods is run for limits 1-4 (period as float and as timedelta - sub-second, a day, 36 hours, a week) in exact "
@@ -73,7 +73,10 @@ def run_case(R: Recorder, case: dict[str, Any], verbose: bool = False) -> None:
     cancel = case.get("cancel")  # (call index, quarter periods after its arrival) or None
     scoped = case.get("scoped", False)
     q = period / 4
-    clock = VClock()
+    nudge = case.get("nudge") or [0.0] * n  # tiny (dyadic) amounts by which single arrivals come earlier (+) / later (-) than the quarter-period grid
+    clock = VClock(case["clock_start"]) if case.get("clock_start") else VClock()
+    if any(nudge):
+        R.count("histories_with_arrivals_just_off_a_window_boundary")
     t0 = clock.now
     arrivals: dict[int, float] = {}
     starts: dict[int, float] = {}
@@ -137,7 +140,7 @@ def run_case(R: Recorder, case: dict[str, Any], verbose: bool = False) -> None:
             for i in range(lo, hi):
                 g = gaps[i]
                 if g:
-                    await asyncio.sleep(g * q)
+                    await asyncio.sleep(g * q - nudge[i])
                 tasks.append(loop.create_task(caller(i)))
                 if cancel is not None and cancel[0] == i:
                     loop.call_at(clock.now + cancel[1] * q, lambda t=tasks[-1]: got.__setitem__("cancel_accepted", t.cancel()))
@@ -260,6 +263,17 @@ def exhaustive(tier: str):  # noqa: ANN201
             for gaps in itertools.product((0, 2, 4, 8), repeat=n - 1):
                 for b0 in (3, 4, 6):
                     yield {"limit": limit, "period": 1.0, "pform": "float", "gaps": [0, *gaps], "durs": [3, *[0] * (n - 1)], "busy": [b0, *[0] * (n - 1)]}
+    # arrivals a hair before / after the instant at which a slot of a full window becomes free (the process has been up for 1000 s, or
+    # for 12 days: the hair is far below / far above one part in 10^9 of the clock reading, always an exactly representable number)
+    for limit in (1, 2, 3):
+        for n in (2, 3, 4):
+            for gaps in itertools.product((0, 2, 4, 8), repeat=n - 1):
+                for i in range(1, n):
+                    if not gaps[i - 1]:
+                        continue
+                    for start, eps in ((1000.0, 2.0**-21), (2.0**20, 2.0**-11), (1000.0, 2.0**-12)):
+                        for sign in (1, -1):
+                            yield {"limit": limit, "period": 1.0, "pform": "float" if (n + i) % 2 else "timedelta", "gaps": [0, *gaps], "nudge": [sign * eps if j == i else 0.0 for j in range(n)], "clock_start": start}
     # one wrapper used from two consecutive event loops (e.g. two asyncio.run calls): the window does not care about loops
     for limit in (1, 2, 3):
         for n in range(2, 5):
